@@ -290,10 +290,12 @@ def run(ctx):
                                   for a in union[k])
     ddir = ctx.dir("agents")
     texts = []
+    agent_ids = ops.shuffle(["0", "1", "a", "rover-1", "rover-2", "truck-a", "truck-b", "x_1", "a1", "a10"])[:nfiles]
+    ctx.agent_ids = agent_ids
     for i, F in enumerate(files):
         txt = G.render_domain(F)
         texts.append(txt)
-        fs.write_real(ddir / f"domain-{i}.pddl", txt)
+        fs.write_real(ddir / f"domain-{agent_ids[i]}.pddl", txt)
     fs.write_real(ddir / "notes.txt", "not a domain")
     fs.write_real(ddir / "domain_other.pddl", "(this file does not match the pattern")
     ctx.log("input", tuple(texts), dummy)
@@ -320,7 +322,7 @@ def run(ctx):
     if nfiles >= 1 and cfg.chance(1, 4):
         which = ops.draw(nfiles)
         kind = f.draw(3)
-        p = ddir / f"domain-{which}.pddl"
+        p = ddir / f"domain-{agent_ids[which]}.pddl"
         good = texts[which]
         if kind == 0:
             cut = f.draw(max(1, len(good) - 2))
@@ -333,7 +335,7 @@ def run(ctx):
                 raised = True
             if not raised and sexpr.classify(good[:cut])[0] == "reject":
                 raise Violation("C17/torn-agent-file-accepted", "locate_domains",
-                                f"domain-{which}.pddl cut after {cut} of {len(good)} bytes was combined without error")
+                                f"domain-{agent_ids[which]}.pddl cut after {cut} of {len(good)} bytes was combined without error")
             fs.write_real(p, good)
         else:
             # the read fault hits whichever file is opened first in this discovery order
@@ -414,14 +416,14 @@ def run(ctx):
     check_bystanders("after export_combined_domain")
     # ---- problems
     pfiles = split_problem(ops, W, nfiles)
-    prefix = ["problem", "pfile", "p"][cfg.draw(3)]
+    prefix = ["problem", "pfile", "p", "prob-x"][cfg.draw(4)]
     for i, PF in enumerate(pfiles):
-        fs.write_real(ddir / f"{prefix}-{i}.pddl", G.render_problem(W.D, PF))
+        fs.write_real(ddir / f"{prefix}-{agent_ids[i]}.pddl", G.render_problem(W.D, PF))
     pconv = MultiAgentProblemsConverter(ddir, prefix)
     # ---- fault: an unreadable / torn agent problem file => combine_problems raises; a later call is unaffected
     if cfg.chance(1, 3):
         which = ops.draw(nfiles)
-        pp = ddir / f"{prefix}-{which}.pddl"
+        pp = ddir / f"{prefix}-{agent_ids[which]}.pddl"
         good = G.render_problem(W.D, pfiles[which])
         kind = f.draw(3)
         if kind == 0:
